@@ -164,6 +164,18 @@ class JsonPointer {
   }
 
   /**
+   * @brief Convert a token to an array index.
+   *
+   * Section 4 of RFC 6901 defines an array index as either "0" or a sequence
+   * of decimal digits without a leading zero. Signs, whitespace, leading
+   * zeros and trailing characters are not allowed.
+   * @param token the un-escaped token.
+   * @param[out] index the array index.
+   * @returns true if the token was a valid array index, false otherwise.
+   */
+  static bool TokenToIndex(const std::string &token, unsigned int *index);
+
+  /**
    * @brief Return the token at the specified index.
    * @param i the index of the token to return.
    * @returns the un-encoded representation of the token.
